@@ -20,7 +20,7 @@ FILES = {
     "src/lib/instructions/string.rs":            ["C07", "C09"],
     "src/lib/instructions/data_transfer.rs":     ["C05", "C09"],
     "src/lib/util/address.rs":                   ["C04", "C09", "C05"],
-    "src/lib/util/flag_util.rs":                 ["C01", "C02", "C05", "C06"],
+    "src/lib/util/flag_util.rs":                 ["C01", "C02", "C05", "C06", "C17", "C20", "C07"],
     "src/lib/util/data_util.rs":                 ["C04", "C05", "C01"],
     "src/lib/util/interpreter_util.rs":          ["C08", "C01", "C19"],
     "src/lib/util/preprocessor_util.rs":         ["C16", "C08", "C19", "C13", "C12"],
@@ -213,7 +213,8 @@ def main():
                 rec["checks"] = {}
                 for p in props:
                     e = dict(ENV, VERIF_REPO=WT)
-                    rc, out = sh(["python3", "/verif/verif.py", "check", p, "--tier", "quick"], cwd="/verif", timeout=3000, env=e)
+                    root = os.path.dirname(os.path.dirname(os.path.abspath(__file__)))
+                    rc, out = sh(["python3", os.path.join(root, "verif.py"), "check", p, "--tier", "quick"], cwd=root, timeout=3000, env=e)
                     rec["checks"][p] = rc
                     if rc == 1:
                         rec["status"] = "caught"
